@@ -184,6 +184,93 @@ def _splat_literal_dicts(tree: ast.AST) -> None:
                     k += 1
 
 
+def _splat_literal_tuples(tree: ast.AST) -> bool:
+    """`t = (a, b)` (names / constants only, bound once) ... `f(.., *t)`: the call is `f(.., a, b)`; a `t` that is then unused is
+    dropped.  Returns True if anything changed."""
+    changed = False
+    for fn in ast.walk(tree):
+        if not isinstance(fn, (ast.FunctionDef, ast.AsyncFunctionDef)):
+            continue
+        stores: Dict[str, List[ast.AST]] = {}
+        nstore: Dict[str, int] = {}
+        for n in ast.walk(fn):
+            if isinstance(n, ast.Name) and isinstance(n.ctx, ast.Store):
+                nstore[n.id] = nstore.get(n.id, 0) + 1
+            if isinstance(n, ast.Assign) and len(n.targets) == 1 and isinstance(n.targets[0], ast.Name) and isinstance(n.value, ast.Tuple) \
+                    and all(isinstance(e, (ast.Name, ast.Constant)) for e in n.value.elts):
+                stores.setdefault(n.targets[0].id, []).append(n)
+        for t, sts in stores.items():
+            if len(sts) != 1 or nstore.get(t) != 1:
+                continue
+            elts = sts[0].value.elts
+            # the element names must not be rebound anywhere after (conservatively: bound at most once in the function, or parameters)
+            if any(isinstance(e, ast.Name) and nstore.get(e.id, 0) > 1 for e in elts):
+                continue
+            for c in ast.walk(fn):
+                if isinstance(c, ast.Call) and any(isinstance(a, ast.Starred) and isinstance(a.value, ast.Name) and a.value.id == t for a in c.args):
+                    new_args = []
+                    for a in c.args:
+                        if isinstance(a, ast.Starred) and isinstance(a.value, ast.Name) and a.value.id == t:
+                            new_args += [ast.copy_location(ast.Name(id=e.id, ctx=ast.Load()) if isinstance(e, ast.Name) else ast.Constant(value=e.value), a) for e in elts]
+                        else:
+                            new_args.append(a)
+                    c.args = new_args
+                    changed = True
+            if not any(isinstance(n, ast.Name) and n.id == t and isinstance(n.ctx, ast.Load) for n in ast.walk(fn)):
+                for owner in ast.walk(fn):
+                    for fld in ("body", "orelse", "finalbody"):
+                        blk = getattr(owner, fld, None)
+                        if isinstance(blk, list) and any(x is sts[0] for x in blk):
+                            blk[:] = [x for x in blk if x is not sts[0]] or [ast.copy_location(ast.Pass(), sts[0])]
+                            changed = True
+    return changed
+
+
+def _count_loops(tree: ast.AST) -> None:
+    """`for k in itertools.count(s): BODY` is `k = s; while True: BODY; k += 1` with the increment also before every `continue` of
+    that loop (the rules read the iteration counter of the solve loop as an explicit counter)."""
+    class T(ast.NodeTransformer):
+        def visit_For(self, n):
+            self.generic_visit(n)
+            it = n.iter
+            if not (isinstance(it, ast.Call) and ((isinstance(it.func, ast.Attribute) and it.func.attr == "count" and isinstance(it.func.value, ast.Name) and it.func.value.id == "itertools")
+                                                   or (isinstance(it.func, ast.Name) and it.func.id == "count")) and len(it.args) <= 1 and not it.keywords
+                    and isinstance(n.target, ast.Name) and not n.orelse):
+                return n
+            k = n.target.id
+            if any(isinstance(x, ast.Name) and x.id == k and isinstance(x.ctx, ast.Store) for b in n.body for x in ast.walk(b)):
+                return n
+            start = it.args[0] if it.args else ast.Constant(value=0)
+
+            def inc():
+                return ast.copy_location(ast.AugAssign(target=ast.Name(id=k, ctx=ast.Store()), op=ast.Add(), value=ast.Constant(value=1)), n)
+
+            def fix(block, top=True):
+                out = []
+                for st in block:
+                    if isinstance(st, ast.Continue):
+                        out.append(inc())
+                        out.append(st)
+                        continue
+                    if isinstance(st, (ast.For, ast.While)):
+                        out.append(st)          # a `continue` in an inner loop belongs to that loop
+                        continue
+                    for fld in ("body", "orelse", "finalbody"):
+                        sub = getattr(st, fld, None)
+                        if isinstance(sub, list) and sub and isinstance(sub[0], ast.stmt):
+                            setattr(st, fld, fix(sub, False))
+                    for h in getattr(st, "handlers", []) or []:
+                        h.body = fix(h.body, False)
+                    out.append(st)
+                return out
+            body = fix(n.body) + [inc()]
+            init = ast.copy_location(ast.Assign(targets=[ast.Name(id=k, ctx=ast.Store())], value=start), n)
+            loop = ast.copy_location(ast.While(test=ast.Constant(value=True), body=body, orelse=[]), n)
+            return [init, loop]
+    T().visit(tree)
+    ast.fix_missing_locations(tree)
+
+
 def _dissolve_namedtuples(trees) -> None:
     """private NamedTuple classes used as throw-away records: `a, b = _Rec(f=x, g=y)` is `a, b = x, y` (field order), and a local
     `r = _Rec(..)` that is only read as `r.f` / `r.g` or unpacked is replaced by one local per field.  Only classes whose name
@@ -352,6 +439,21 @@ def _sink_returns(tree: ast.AST) -> None:
                 push_return(body, ret)
                 changed = True
                 continue
+            # `try: BODY  except E: H` followed by `return <names only>`: the return moves to the end of the try body (or its else
+            # block) and of every handler; evaluating plain names cannot raise, so no new exception comes under the handlers
+            if len(body) >= 2 and isinstance(body[-1], ast.Return) and isinstance(body[-2], ast.Try) and not body[-2].finalbody and body[-2].handlers \
+                    and (body[-1].value is None or all(isinstance(n, (ast.Name, ast.Tuple, ast.Constant, ast.Load)) for n in ast.walk(body[-1].value))):
+                ret = body.pop()
+                tr = body[-1]
+                main = tr.orelse if tr.orelse else tr.body
+                for blk in [main] + [h.body for h in tr.handlers]:
+                    if not leaves(blk):
+                        if blk and isinstance(blk[-1], ast.If) and not any(isinstance(n, (ast.For, ast.While, ast.Try, ast.With)) for n in ast.walk(blk[-1])):
+                            push_return(blk, ret)
+                        else:
+                            blk.append(_copy.deepcopy(ret))
+                changed = True
+                continue
             if len(body) >= 2 and isinstance(body[-1], ast.Return) and isinstance(body[-1].value, ast.Name):
                 name = body[-1].value.id
                 prev = body[-2]
@@ -433,6 +535,8 @@ class Program:
                     raise AnalysisError(f"cannot parse {path}: {e}")
                 tree = _SplitTupleAssign().visit(tree)
                 _splat_literal_dicts(tree)
+                _splat_literal_tuples(tree)
+                _count_loops(tree)
                 _sink_returns(tree)
                 mod = Module(name, path, tree, src)
                 mod.is_pkg = fn == "__init__.py"
